@@ -107,6 +107,12 @@ def h_shift(e, cfg):
             D.clear(); U.clear()
             hist_cur, hist_spk, hist_pos, hist_neg = [], [], [], []
             e.tag(phase="after-clear")
+        if cfg.get("reassign") is not None and t == cfg["reassign"]:
+            # the learned delays are re-assigned through the property while the connection is running (as an updater does)
+            dl2 = e.sym(dshape, torch.float32, "d2", lo=0, hi=min(K(mx), F(mx)))
+            D.delay = dl2
+            da = e.read(D.delay)
+            e.tag(phase="after-reassigning-delays")
         x = e.sym((B, *ishape), torch.bool, f"x{t}", ind=True)
         args = (x,)
         if syn == "deltaplus":
@@ -209,6 +215,10 @@ def checks(tier):
                                 if syn == "delta" or th:
                                     # two input channels: the (c kh kw) order of the per-synapse delays / unfolded patches
                                     cfgs.append(dict(kind=kind, syn=syn, dt=dt, max=mmul * dt, delays=delays, B=B, bias=False, T=(3 if th else 2), geom=(2, 2, 1, 2, 2)))
+    # delays re-assigned after the connection has been stepped
+    for kind in ("dense", "direct", "lateral", "conv"):
+        for syn in (("delta", "single") if th else ("delta",)):
+            cfgs.append(dict(kind=kind, syn=syn, dt=1.3, max=2 * 1.3, delays="any", B=1, bias=False, T=4, after_clear=0, reassign=2))
     # concrete Python-float delays k * dt at step times float32 cannot represent (delay / dt lands an ulp off the integer)
     for kind in ("dense", "direct", "lateral", "conv"):
         for syn in (tuple(SYN) if th else ("delta", "single")):
